@@ -24,30 +24,34 @@ Extras == {<<>>, <<"-e CANARY">>, <<"--rsh=CANARY">>, <<"-a">>, <<"--version">>,
            \* the WORDS --daemon / --server as the ARGUMENT of another option: the parsed options do not have them
            <<"-e --daemon">>, <<"--rsh --daemon">>, <<"--exclude --server", "-e --daemon">>, <<"--filter --daemon">>}
 PathArgs == {<<>>, <<".">>, <<".", "OUTSIDE">>, <<"host:path", "DROP">>, <<"OUTSIDE/", "DROP">>, <<"OUTSIDE/">>}
+\* the FIRST word of an exec line names the program and is not an option: whatever it spells, it selects nothing
+Progs == {"rsync", "/usr/local/bin/rsync", "--daemon", "--server", "--no-detach", "--config=OUTSIDE/evil.toml"}
 Requests == {"exec", "shell", "env", "subsystem", "pty-req", "channel:direct-tcpip"}
 
 ConfiguredModules == {"m"}
 
-VARIABLES listener, keyfile, key, req, base, extra, paths, admitted, outcome,
+VARIABLES listener, keyfile, key, req, prog, base, extra, paths, admitted, outcome,
           visible,         \* the modules the session can list
           wantreply        \* the want-reply flag of the exec request: the peer's to choose, it decides nothing
-vars == <<listener, keyfile, key, req, base, extra, paths, admitted, outcome, visible, wantreply>>
+vars == <<listener, keyfile, key, req, prog, base, extra, paths, admitted, outcome, visible, wantreply>>
 
 Init == /\ listener \in Listeners /\ keyfile \in KeyFiles /\ key \in ClientKeys
         /\ (listener = "anon" => keyfile = "one-key")            \* the key file plays no role for anonymous listeners
         /\ req \in Requests
         /\ base \in Bases /\ extra \in Extras /\ paths \in PathArgs
+        /\ prog \in Progs
         /\ (req # "exec" => base = <<>> /\ extra = <<>> /\ paths = <<>>)
         /\ wantreply \in BOOLEAN /\ (req # "exec" => wantreply)
+        /\ (prog # "rsync" => req = "exec" /\ extra = <<>> /\ wantreply)      \* (bound: unusual program words with the plain option lines only)
         /\ admitted = "unknown" /\ outcome = "none" /\ visible = {}
 
 Admit(l, kf, k) == l = "anon" \/ IsListed(kf, k)
 Handshake == /\ admitted = "unknown"
              /\ admitted' = (IF Admit(listener, keyfile, key) THEN "yes" ELSE "no")
-             /\ UNCHANGED <<listener, keyfile, key, req, base, extra, paths, outcome, visible, wantreply>>
+             /\ UNCHANGED <<listener, keyfile, key, req, prog, base, extra, paths, outcome, visible, wantreply>>
 
 HasBoth(b) == \E i \in 1..Len(b) : b[i] = "--server" /\ \E j \in 1..Len(b) : b[j] = "--daemon"
-Canonical == req = "exec" /\ base = <<"--server", "--daemon">> /\ extra = <<>> /\ paths = <<".">>     \* what rsync -e ssh sends for host::module
+Canonical == req = "exec" /\ prog = "rsync" /\ base = <<"--server", "--daemon">> /\ extra = <<>> /\ paths = <<".">>     \* what rsync -e ssh sends for host::module
 (* an anonymous session: only "exec" of a command line that selects the daemon *)
 (* (--server --daemon) may proceed, and then only as the daemon protocol        *)
 Serve == /\ admitted = "yes" /\ outcome = "none"
@@ -56,7 +60,7 @@ Serve == /\ admitted = "yes" /\ outcome = "none"
                           ELSE {"refused", "command"})              \* an authorised user may run rsync over ssh
          /\ visible' = (IF outcome' = "daemon-protocol" THEN ConfiguredModules ELSE {})
          /\ (Canonical => outcome' = "daemon-protocol")           \* the daemon itself stays reachable
-         /\ UNCHANGED <<listener, keyfile, key, req, base, extra, paths, admitted, wantreply>>
+         /\ UNCHANGED <<listener, keyfile, key, req, prog, base, extra, paths, admitted, wantreply>>
 Done == (admitted = "no" \/ outcome # "none") /\ UNCHANGED vars
 Next == Handshake \/ Serve \/ Done
 Spec == Init /\ [][Next]_vars
@@ -69,7 +73,7 @@ DaemonReachable == (Canonical /\ outcome # "none") => outcome = "daemon-protocol
 
 OutFile == IOEnv.VERIF_OUT
 Emit == (admitted = "unknown") =>
-  CSVWrite("%1$s", <<ToJson([listener |-> listener, keyfile |-> keyfile, key |-> key, req |-> req, base |-> base, extra |-> extra, paths |-> paths,
+  CSVWrite("%1$s", <<ToJson([listener |-> listener, keyfile |-> keyfile, key |-> key, req |-> req, prog |-> prog, base |-> base, extra |-> extra, paths |-> paths,
                              admit |-> Admit(listener, keyfile, key), both |-> HasBoth(base), canonical |-> (Canonical /\ wantreply), noreply |-> ~wantreply])>>, OutFile)
 GenNext == FALSE /\ UNCHANGED vars
 GenSpec == Init /\ [][GenNext]_vars
